@@ -27,7 +27,7 @@ REPO = os.environ.get("VERIF_REPO", "/repo")
 
 # property -> settings. shards: (quick, thorough); timeout_s per shard: (quick, thorough)
 PROPS = {
-    "C01": dict(level="exploration", cli=True),
+    "C01": dict(level="exploration", cli=True, fuzz=[("FuzzC01Compile", 240)]),
     "C02": dict(level="exploration"),
     "C03": dict(level="exploration"),
     "C04": dict(level="exploration"),
@@ -120,6 +120,44 @@ def run_shard(pid, tier, seed, shard, nshards, race, timeout, outdir):
     return dict(proc=p, out=out, log=log, logf=f, deadline=time.time() + timeout, shard=shard)
 
 
+def run_fuzz(pid, target, secs, merged, inconclusive):
+    """Bounded native `go test -fuzz` campaign (thorough tier). A crasher saved by the fuzzer is the
+    reproducible unit: it is copied to replays/<pid>/ and reported as a violation."""
+    import glob, re
+    corpus = os.path.join(HARNESS, "checks", "testdata", "fuzz", target)
+    before = set(glob.glob(os.path.join(corpus, "*")))
+    mf, _ = modfile_args()
+    cmd = ["go", "test"] + mf + ["./checks", "-run", "^$", "-fuzz", "^%s$" % target, "-fuzztime", "%ds" % secs, "-parallel", str(os.cpu_count() or 16)]
+    env = goenv()
+    env.update(VERIF_ROOT=ROOT, VERIF_REPO=REPO)
+    try:
+        p = subprocess.run(cmd, cwd=HARNESS, env=env, stdout=subprocess.PIPE, stderr=subprocess.STDOUT, text=True, timeout=secs + 600)
+        out = p.stdout
+        rc = p.returncode
+    except subprocess.TimeoutExpired as e:
+        out = (e.stdout or b"").decode("utf8", "replace") if isinstance(e.stdout, bytes) else (e.stdout or "")
+        rc = None
+        inconclusive.append("fuzz %s exceeded its wall bound" % target)
+    execs = 0
+    for m in re.finditer(r"execs: (\d+)", out):
+        execs = max(execs, int(m.group(1)))
+    merged["evaluations"] += execs
+    merged["requested"] += 0
+    new = sorted(set(glob.glob(os.path.join(corpus, "*"))) - before)
+    info = dict(target=target, seconds=secs, execs=execs, crashers=len(new))
+    if new:
+        os.makedirs(os.path.join(ROOT, "replays", pid), exist_ok=True)
+        for f in new:
+            dst = os.path.join(ROOT, "replays", pid, "fuzz-%s-%s" % (target, os.path.basename(f)))
+            shutil.copy(f, dst)
+            msg = [l for l in out.splitlines() if "panic" in l or "fatal" in l or "Failing input" in l]
+            merged["failures"].append(dict(prop="fuzz:" + target, message=(msg[0] if msg else "fuzz crasher")[:300], replay=dst))
+            os.remove(f)
+    elif rc not in (0, None):
+        inconclusive.append("fuzz %s exit %s without a saved crasher: %s" % (target, rc, out[-400:]))
+    return info
+
+
 def check(pid, tier):
     t0 = time.time()
     conf = PROPS[pid]
@@ -196,6 +234,10 @@ def check(pid, tier):
             # the go test failed without a recorded failure: harness trouble, not a verdict
             tail = open(s["log"]).read()[-1500:]
             inconclusive.append("shard %d failed without a recorded violation: %s" % (s["shard"], tail))
+    fuzz_info = []
+    if tier == "thorough" and conf.get("fuzz") and not merged["failures"]:
+        for target, secs in conf["fuzz"]:
+            fuzz_info.append(run_fuzz(pid, target, secs, merged, inconclusive))
     if merged["evaluations"] < merged["requested"] and not merged["failures"]:
         inconclusive.append("only %d of %d requested cases ran" % (merged["evaluations"], merged["requested"]))
     # report
@@ -218,6 +260,8 @@ def check(pid, tier):
     if merged["exhaustive"]:
         cov["exhaustive"] = all(merged["exhaustive"].values())
         cov["exhaustive_parts"] = merged["exhaustive"]
+    if fuzz_info:
+        cov["native_fuzzing"] = fuzz_info
     if merged["notes"]:
         cov["notes"] = merged["notes"]
     if inconclusive:
@@ -240,6 +284,20 @@ def check(pid, tier):
 
 
 def replay(path):
+    base = os.path.basename(path)
+    if base.startswith("fuzz-") and open(path, "rb").read(16).startswith(b"go test fuzz"):
+        # a crasher saved by go's native fuzzer: re-run it through the fuzz target's seed-corpus mode
+        _, target, name = base.split("-", 2)
+        d = os.path.join(HARNESS, "checks", "testdata", "fuzz", target)
+        os.makedirs(d, exist_ok=True)
+        tmp = os.path.join(d, name)
+        shutil.copy(path, tmp)
+        try:
+            mf, _ = modfile_args()
+            p = subprocess.run(["go", "test"] + mf + ["./checks", "-run", "^%s$/^%s$" % (target, name), "-count", "1", "-v"], cwd=HARNESS, env=goenv())
+            return 0 if p.returncode == 0 else 1
+        finally:
+            os.remove(tmp)
     if not build(need_cli=True):
         return 2
     suffix = "" if REPO == "/repo" else "-alt"
